@@ -539,10 +539,16 @@ def oracle_structure(impl, ti, bij, pool, driver):
             res["index"].append(f"find_all(data_id={d!r}) raised {e!r}")
             continue
         if lst:
+            if any(not isinstance(n, Node) for n in lst):
+                res["index"].append(f"find_all(data_id={pool.canon_did(d)!r}) returns {lst!r}: not nodes (an EMPTY result that the caller had extended earlier was handed out again)")
+                continue
             by_data.append([pool.canon_did(d), [ser.of(n) for n in lst]])
             for n in lst:
                 if id(n) not in reach_set:
                     res["index"].append(f"find_all(data_id={pool.canon_did(d)!r}) returns a node that is not in the tree")
+        elif isinstance(lst, list):
+            # an empty result belongs to the caller (`found = tree.find_all(a); found += tree.find_all(b)`): extend it in place
+            lst.append("extended by the caller")
     if tree.count_unique != len(by_data):
         res["index"].append(f"count_unique={tree.count_unique}, distinct data_ids found={len(by_data)}")
     none_ids = [n for n in reachable if n.data_id is None]
@@ -565,6 +571,12 @@ def oracle_structure(impl, ti, bij, pool, driver):
             cl2 = n.get_clones(add_self=True)
             if sorted(map(id, cl)) != sorted(id(m) for m in same if m is not n) or sorted(map(id, cl2)) != sorted(map(id, same)):
                 res["index"].append(f"get_clones() of {n!r} != nodes with the same data_id")
+            # the lists that get_clones() returns are the caller's (a work list that is consumed): emptying them changes nothing
+            cl.clear()
+            cl2.clear()
+            if len(n.get_clones(add_self=True)) != len(same):
+                res["index"].append(f"get_clones(add_self=True) of {n!r} hands out the tree's own list: emptying the result emptied the registry entry")
+                cl2.extend(same)     # put the entries back, so that the run can go on
             if n.is_clone() != (len(same) > 1):
                 res["index"].append(f"is_clone() of {n!r} = {n.is_clone()}, {len(same)} nodes carry the id")
             ff = tree.find_first(data_id=n.data_id)
